@@ -20,13 +20,13 @@ STUB = ["user code (generated)", "stdout (sink)"]
 ASSUMPTIONS = ["frame oracle is evaluator-free; the constants oracle compares the implementation with "
                "itself (fresh control object), so a lowering defect cannot be mis-attributed here"]
 REQUIRED_NONZERO = {"*": ["frame_checks", "probe_pairs", "faults_fired.force_unsat", "rand_mode_ops",
-                          "rl_ops", "sa_calls"]}
+                          "rl_ops", "sa_calls", "field_calls", "list_edits"]}
 
 
 def budget(tier):
     if tier == "thorough":
         return {"runs": 4000, "wall": 3000}
-    return {"runs": 400, "wall": 600}
+    return {"runs": 800, "wall": 600}
 
 
 def generate(seed, tier):
@@ -34,7 +34,7 @@ def generate(seed, tier):
     rng = st.prog
     prog, g = scen.tree_program(st, feats={"depth": rng.choice([1, 2, 2]), "objlists": rng.random() < 0.3,
                                            "nonrand_sub": True, "fanout": 2},
-                                cfg={"nonrand": True})
+                                cfg={"nonrand": True, "loose": 0.7, "max_stmts": 3})
     top = prog["top"]
     P = refsem.Prog(prog)
     tcls = P.cls(top)
@@ -82,6 +82,19 @@ def all_paths(P, cname, base=None, rand_ctx=True, out=None):
     return out
 
 
+def tree_lists(P, cname, base=None, out=None):
+    """(path, field def) of scalar lists reachable through plain attributes"""
+    if out is None:
+        out = []
+    base = base or []
+    for f in P.fields(cname):
+        if f["k"] == "l" and not f.get("rsz"):
+            out.append((base + [f["n"]], f))
+        elif f["k"] == "o":
+            tree_lists(P, f["c"], base + [f["n"]], out)
+    return out
+
+
 def gen_ops(st, prog, g, rl_field, sa, tier):
     rng = st.ops
     P = refsem.Prog(prog)
@@ -90,6 +103,9 @@ def gen_ops(st, prog, g, rl_field, sa, tier):
     nonrand = [(p, f) for (p, f, r) in paths if not r]
     toggles = [(p, f) for (p, f, r) in paths if r and len(p) == 1 and f["k"] == "s"]
     gi = progs.Gen(st.ops, g.cfg)
+    list_paths = tree_lists(P, top)
+    field_targets = [(q, f_) for (q, f_, r_) in paths if r_ and f_["k"] == "s" and
+                     all(isinstance(x, str) for x in q)]
     n_parties = rng.choice([1, 2, 2, 3])
     ops = []
     for p in range(n_parties):
@@ -132,8 +148,35 @@ def gen_ops(st, prog, g, rl_field, sa, tier):
                                       progs.EXPR(progs.BIN(">", fe, progs.LIT(1)))]
                 op["fault"] = "force_unsat"
             ops.append(op)
-        elif r < 0.84:
+        elif r < 0.82:
             ops.append({"op": "frand", "targets": [[p, []]], "k": st.lib.randint(0, 1 << 30)})
+        elif r < 0.86 and list_paths:
+            # list edits anywhere in the tree (also below non-random sub-objects)
+            lp, lf = rng.choice(list_paths)
+            if rng.random() < 0.75:
+                ops.append({"op": "lappend", "p": p, "path": lp,
+                            "v": gi.in_range_value({"k": "s", "w": lf["w"], "s": lf["s"]})})
+            else:
+                ops.append({"op": "lclear", "p": p, "path": lp})
+        elif r < 0.92 and field_targets:
+            # free-standing call on individual fields of the object (raw-mode references)
+            k = rng.randint(1, min(2, len(field_targets)))
+            sel = rng.sample(field_targets, k)
+            op = {"targets": [[p, q] for (q, f_) in sel], "k": st.lib.randint(0, 1 << 30), "fields": True}
+            if rng.random() < 0.6:
+                op["op"] = "frw"
+                op["ctx"] = p
+                q0, f0 = sel[0]
+                fe = {"t": "f", "p": q0}
+                if rng.random() < 0.4:
+                    op["inline"] = [progs.EXPR(progs.BIN("<", fe, progs.LIT(1))),
+                                    progs.EXPR(progs.BIN(">", fe, progs.LIT(1)))]
+                    op["fault"] = "force_unsat"
+                else:
+                    op["inline"] = [progs.simple_stmt(rng, [dict(f0, _p=q0)])]
+            else:
+                op["op"] = "frand"
+            ops.append(op)
         else:
             names = [f["n"] for f in sa]
             k = rng.randint(1, len(names))
@@ -212,7 +255,7 @@ def execute(rec):
         kind = op["op"]
         if "p" in op and op["p"] >= len(w.parties):
             continue
-        if kind == "frand" and op["targets"][0][0] >= len(w.parties):
+        if kind in ("frand", "frw") and op["targets"][0][0] >= len(w.parties):
             continue
         if kind == "sa_call":
             stats["sa_calls"] += 1
@@ -251,11 +294,16 @@ def execute(rec):
             if viol:
                 break
             continue
-        if kind in ("randomize", "rw", "frand"):
+        if kind in ("randomize", "rw", "frand", "frw"):
             p = op["p"] if "p" in op else op["targets"][0][0]
             pt = w.parties[p]
             before = w.tree(p)
-            rpaths = set(refsem.path_key(q) for q in w.rand_paths(p, before))
+            if op.get("fields"):
+                # only the fields passed to the call are random in it
+                rpaths = set(refsem.path_key(t[1]) for t in op["targets"])
+                stats["field_calls"] = stats.get("field_calls", 0) + 1
+            else:
+                rpaths = set(refsem.path_key(q) for q in w.rand_paths(p, before))
             others = [(i, w.tree(i)) for i in range(len(w.parties)) if i != p]
             out = w.apply(op)
             after = w.tree(p)
@@ -290,6 +338,19 @@ def execute(rec):
                                         "before": bad[1], "after": bad[2],
                                         "rand_off": sorted(pt.rand_off)}})
                 break
+            # the values / list contents / rangelist contents current at the time of the call are
+            # the ones the result satisfies
+            if out["st"] == "ok" and not op.get("fields"):
+                try:
+                    fail = refsem.check_tree(P, pt.cname, after, pt.modes, pt.rangelists, op.get("inline"))
+                    stats["result_checks"] = stats.get("result_checks", 0) + 1
+                except refsem.RefError:
+                    fail = None
+                if fail is not None:
+                    viol.append({"inv": "C03.constant_stale", "cls": "C03.constant_stale/result",
+                                 "detail": {"op": oi, "kind": kind, "tree": after, "failing": fail,
+                                            "rangelists": pt.rangelists}})
+                    break
             # constants oracle: compare pin-probe verdicts with a fresh control object
             if kind == "randomize" and out["st"] in ("ok", "solvefail") and prng.random() < 0.4:
                 cur = w.tree(p)
@@ -308,7 +369,7 @@ def execute(rec):
                     if pt.rangelists["rl0"]:
                         cw.apply({"op": "rl", "p": c, "name": "rl0", "act": "extend",
                                   "items": pt.rangelists["rl0"]})
-                builder.write_tree(cw.env, pt.cname, cpt.obj, cur)
+                builder.sync_tree(cw.env, pt.cname, cpt.obj, cur)
                 pts = []
                 doms = [list(refsem.path_domain(P, pt.cname, q)) for q in rp]
                 base_pt = tuple(refsem._walk(cur, q) for q in rp)
@@ -335,7 +396,15 @@ def execute(rec):
                 if viol:
                     break
             continue
+        if kind == "assign":
+            # the element may no longer exist after a list edit
+            try:
+                refsem._walk(w.tree(op["p"]), op["path"])
+            except (IndexError, KeyError):
+                continue
         out = w.apply(op)
+        if kind in ("lappend", "lclear"):
+            stats["list_edits"] = stats.get("list_edits", 0) + 1
         if kind == "rand_mode":
             stats["rand_mode_ops"] += 1
         if kind == "rl":
